@@ -32,6 +32,10 @@ THEOREMS = [P + n for n in [
     "generated_tables_ok",
     "parse_gen_counterexample_neg_range",
     "parse_gen_counterexample_like_chain",
+    "generated_guards_ok",
+    "neg_text_guard_separates",
+    "bnot_text_guard_separates",
+    "neg_node_guard_counterexample",
     "bitwisenot_glue_witness",
     "format_time_id",
     "format_time_no_key_start",
@@ -54,8 +58,16 @@ def sg():
 
 
 def all_dialects() -> list[str]:
+    """every registered dialect: the `Dialects` enum UNION the dialect modules (the enum misses some, e.g. singlestore)"""
     _, _, _, Dialects, _, _ = sg()
-    return [d.value for d in Dialects]
+    import sqlglot.dialects as D
+
+    names = {d.value for d in Dialects}
+    mods = getattr(D, "DIALECT_MODULE_NAMES", None)
+    if mods is not None:
+        names |= {str(n) for n in (mods.values() if hasattr(mods, "values") else mods)}
+    names |= {str(n).lower() for n in getattr(D, "DIALECTS", [])} & set(getattr(D, "MODULE_BY_DIALECT", {}).values() if hasattr(getattr(D, "MODULE_BY_DIALECT", None), "values") else [])
+    return sorted(names)
 
 
 # ------------------------------------------------------------------------------------------ translate
@@ -114,6 +126,35 @@ PLAIN_SAMPLES = {
 
 LADDER_METHODS = ["_parse_disjunction", "_parse_conjunction", "_parse_equality", "_parse_comparison", "_parse_bitwise",
                   "_parse_term", "_parse_factor", "_parse_exponent", "_parse_unary"]
+def guard_kind(fn) -> str:
+    """shape of the space guard of a prefix-operator method: 'text' (looks at the generated operand text:
+    `x[0] == c`, `x[:1] == c`, `x.startswith(c)`), 'node' (isinstance on the operand), 'none', 'unknown'"""
+    import inspect
+    import textwrap
+
+    try:
+        tree = ast.parse(textwrap.dedent(inspect.getsource(fn)))
+    except Exception:  # noqa
+        return "unknown"
+    tests = [n.test for n in ast.walk(tree) if isinstance(n, ast.IfExp)]
+    # an `if …: sep = " "` statement form counts too
+    for n in ast.walk(tree):
+        if isinstance(n, ast.If) and any(isinstance(b, ast.Assign) and any(isinstance(t, ast.Name) and t.id == "sep" for t in b.targets) for b in n.body):
+            tests.append(n.test)
+    if not tests:
+        return "none"
+    kinds = set()
+    for t in tests:
+        for n in ast.walk(t):
+            if isinstance(n, ast.Call) and isinstance(n.func, ast.Name) and n.func.id == "isinstance":
+                kinds.add("node")
+            elif isinstance(n, ast.Call) and isinstance(n.func, ast.Attribute) and n.func.attr == "startswith":
+                kinds.add("text")
+            elif isinstance(n, ast.Compare) and isinstance(n.left, ast.Subscript) and isinstance(n.left.value, ast.Name):
+                kinds.add("text")
+    return next(iter(kinds)) if len(kinds) == 1 else "unknown"
+
+
 METHODS_MODELLED = ["_parse_disjunction", "_parse_conjunction", "_parse_equality", "_parse_comparison", "_parse_range",
                     "_negate_range", "_parse_is", "_parse_in", "_parse_between", "_parse_escape", "_parse_bitwise", "_parse_term",
                     "_parse_factor", "_parse_factor_operand", "_parse_exponent", "_parse_unary", "_parse_paren", "_parse_primary"]
@@ -132,8 +173,7 @@ def dialect_tables(chk: Check) -> dict:
     _, exp, Dialect, Dialects, Generator, Parser = sg()
     ops = generator_ops(chk)
     out = {}
-    for d in Dialects:
-        name = d.value
+    for name in all_dialects():
         try:
             inst = Dialect.get_or_raise(name or None)
         except Exception as ex:  # noqa  (a dialect module that parses SQL at import time can fail on a broken parser)
@@ -191,6 +231,7 @@ def dialect_tables(chk: Check) -> dict:
                           and all(getattr(Pc, m) is getattr(Parser, m) for m in METHODS_MODELLED),
             "entry_ok": entry_ok(name) and all(getattr(Pc, m) is getattr(Parser, m) for m in LADDER_METHODS),
             "normfunc": inst.NORMALIZE_FUNCTIONS,
+            "negGuard": guard_kind(Gc.neg_sql), "bnotGuard": guard_kind(Gc.bitwisenot_sql),
         }
     return out
 
@@ -198,12 +239,12 @@ def dialect_tables(chk: Check) -> dict:
 def time_tables() -> dict:
     _, _, Dialect, Dialects, _, _ = sg()
     out = {}
-    for d in Dialects:
+    for name in all_dialects():
         try:
-            inst = Dialect.get_or_raise(d.value or None)
+            inst = Dialect.get_or_raise(name or None)
         except Exception:  # noqa
             continue
-        out[d.value] = (sorted(inst.TIME_MAPPING.items()), sorted(inst.INVERSE_TIME_MAPPING.items()))
+        out[name] = (sorted(inst.TIME_MAPPING.items()), sorted(inst.INVERSE_TIME_MAPPING.items()))
     return out
 
 
@@ -220,6 +261,7 @@ def table_lean(t: dict) -> str:
     return ("{ outer := " + lvl(["DISJUNCTION", "CONJUNCTION"]) + ",\n    mid := " + lvl(["EQUALITY", "COMPARISON"])
             + ",\n    lower := " + lvl(["BITWISE", "TERM", "FACTOR", "EXPONENT"]) + ",\n    genOps := " + lean_pairs(t["genOps"])
             + ",\n    rangeToks := [" + ", ".join(lean_str(x) for x in t["rangeToks"]) + "]"
+            + ",\n    negGuard := ." + t["negGuard"] + ",\n    bnotGuard := ." + t["bnotGuard"]
             + ",\n    normalizeNotNull := " + ("true" if t["normalizeNotNull"] else "false")
             + ",\n    identStart := " + lean_str(t["identStart"]) + ",\n    identEnd := " + lean_str(t["identEnd"]) + " }")
 
@@ -383,8 +425,7 @@ class Gen:
             k = r.random()
             if k < 0.45 and "Neg" in self.plain:
                 s = "- " + s
-            elif k < 0.6 and "BitwiseNot" in self.plain and not s.lstrip("+ ").startswith("~"):
-                # `~ ~ a` prints as `~~a` (the LIKE operator): known finding C01-bitwisenot-glue, left to the search oracle
+            elif k < 0.6 and "BitwiseNot" in self.plain:
                 s = "~ " + s
             elif k < 0.7:
                 s = "+ " + s
@@ -560,6 +601,132 @@ def correspond_time(chk: Check) -> None:
             chk.correspondence_broken("format_time", {"string": s, "mapping": m, "model": r, "impl": e})
 
 
+# ------------------------------------------------------------------------------------------ time formats (structure + sweep)
+def format_time_call_smells(chk: Check) -> None:
+    """`self.format_time(e, <mapping>)` without its own trie chunks the string with the DIALECT's trie: flag it"""
+    import glob
+
+    files = sorted(glob.glob(os.path.join(REPO, "sqlglot", "generators", "*.py")) + glob.glob(os.path.join(REPO, "sqlglot", "dialects", "*.py")))
+    files.append(os.path.join(REPO, "sqlglot", "generator.py"))
+    smells = []
+    ncalls = 0
+    for f in files:
+        try:
+            tree = ast.parse(open(f, encoding="utf-8").read())
+        except Exception:  # noqa
+            continue
+        for n in ast.walk(tree):
+            if not (isinstance(n, ast.Call) and isinstance(n.func, ast.Attribute) and n.func.attr == "format_time"):
+                continue
+            recv = n.func.value
+            is_method = (isinstance(recv, ast.Name) and recv.id == "self") or (isinstance(recv, ast.Call) and isinstance(recv.func, ast.Name) and recv.func.id == "super")
+            if not is_method:
+                continue
+            ncalls += 1
+            kws = {k.arg for k in n.keywords}
+            has_map = "inverse_time_mapping" in kws or len(n.args) >= 2
+            has_trie = "inverse_time_trie" in kws or len(n.args) >= 3
+            if has_map and not has_trie:
+                smells.append(f"{os.path.relpath(f, REPO)}:{n.lineno}")
+    chk.cov["format_time_method_calls"] = ncalls
+    if smells:
+        chk.broken.append({"kind": "translator", "what": "C01: Generator.format_time called with an explicit inverse mapping but without that "
+                                                         f"mapping's trie (the dialect's own trie is used to chunk it): {smells}"})
+
+
+def formatted_functions(d: str):
+    """parser FUNCTIONS entries built by build_formatted_time: (sql name, dialect whose notation the format uses, class)"""
+    _, _, Dialect, *_ = sg()
+    inst = Dialect.get_or_raise(d or None)
+    out = []
+    for name, fn in sorted(inst.parser_class.FUNCTIONS.items()):
+        if getattr(fn, "__qualname__", "").startswith("build_formatted_time.") and getattr(fn, "__closure__", None):
+            cells = dict(zip(fn.__code__.co_freevars, (c.cell_contents for c in fn.__closure__)))
+            ov = cells.get("dialect_override")
+            out.append((name, ov if isinstance(ov, str) else d, cells["exp_class"].__name__))
+    return out
+
+
+TIME_CLASSES = ["StrToTime", "TimeToStr", "StrToDate", "UnixToStr", "UnixToTime", "TsOrDsToDate", "ToChar", "StrToUnix", "TsOrDsToTimestamp"]
+
+
+def time_sweep(chk: Check, dialects: list, consider_fixed, deadline: float) -> None:
+    """every specifier of the notation each time-format function is parsed with, individually (exhaustive) and in pairs
+    (all `a-b`, sampled `ab`), as SOURCE text `F(x, '<fmt>')`; plus, for every function class with a format argument,
+    the text the dialect generates for every canonical specifier of its inverse mapping(s)"""
+    _, exp, Dialect, *_ = sg()
+    from sqlglot.errors import ErrorLevel
+
+    rng = chk.rng
+    n_single = n_pair = n_gen = 0
+    for d in dialects:
+        if time.time() > deadline:
+            chk.note("time-format sweep cut short by the time budget")
+            break
+        try:
+            fns = formatted_functions(d)
+        except Exception:  # noqa
+            continue
+        for name, notation, cls in fns:
+            try:
+                specs = sorted(k for k in Dialect.get_or_raise(notation or None).TIME_MAPPING if "'" not in k and "\\" not in k)
+            except Exception:  # noqa
+                continue
+            for sp in specs:
+                n_single += 1
+                consider_fixed(f"SELECT {name}(x, '{sp}')", d, f"timefmt:{name}:{sp}")
+            pairs = [(a, b) for a in specs for b in specs]
+            k = chk.pick(25, len(pairs))
+            for a, b in (rng.sample(pairs, min(k, len(pairs))) if pairs else []):
+                n_pair += 1
+                consider_fixed(f"SELECT {name}(x, '{a}-{b}')", d, f"timefmt:{name}:{a}-{b}")
+                if rng.random() < chk.pick(0.3, 1.0):
+                    consider_fixed(f"SELECT {name}(x, '{a}{b}')", d, f"timefmt:{name}:{a}{b}")
+        # generated spellings of every class with a format argument, canonical specifiers of every inverse mapping in reach
+        inst = Dialect.get_or_raise(d or None)
+        canon = set(inst.INVERSE_TIME_MAPPING)
+        for attr in dir(type(inst)):
+            if "INVERSE_TIME_MAPPING" in attr and isinstance(getattr(inst, attr, None), dict):
+                canon |= set(getattr(inst, attr))
+        canon |= {"%Y", "%m", "%d", "%H", "%M", "%S"}
+        for cn in TIME_CLASSES:
+            K = getattr(exp, cn, None)
+            if K is None or "format" not in K.arg_types:
+                continue
+            for c in sorted(x for x in canon if "'" not in x):
+                try:
+                    txt = K(this=exp.column("x"), format=exp.Literal.string(c)).sql(dialect=d or None, unsupported_level=ErrorLevel.RAISE)
+                except Exception:  # noqa
+                    continue
+                n_gen += 1
+                consider_fixed("SELECT " + txt, d, f"timefmt-gen:{cn}:{c}")
+    chk.cov["time_format_sweep"] = {"single_specifier_sources": n_single, "pair_sources": n_pair, "generated_spellings": n_gen}
+
+
+# prefix operator x operand whose rendering can start with the same character in SOME dialect (calls that dialects print
+# as infix/postfix operators with a signed first argument, signed literals)
+PREFIXES = ["-", "- ", "~", "~ ", "NOT ", "+"]
+OPERAND_FORMS = ["MOD({a}, b)", "POWER({a}, 2)", "POW({a}, 2)", "CONCAT({a}, b)", "CAST({a} AS INT)", "TRY_CAST({a} AS INT)", "DIV({a}, b)",
+                 "BITWISE_AND({a}, b)", "BITWISE_OR({a}, b)", "BITWISE_XOR({a}, b)", "BITAND({a}, b)", "BITOR({a}, b)", "BITXOR({a}, b)",
+                 "BITWISE_NOT({a})", "BITNOT({a})", "SAFE_DIVIDE({a}, b)", "COALESCE({a}, b)", "IFNULL({a}, b)", "NVL({a}, b)", "ABS({a})",
+                 "{a} || b", "{a}::INT", "{a} % b", "{a} ** 2", "{a} DIV b", "{a} IS NULL", "{a} IN (1)", "{a} BETWEEN 1 AND 2", "{a}",
+                 "({a})", "ARRAY_CONCAT({a}, b)", "DPIPE({a}, b)", "NEG({a})", "LEFT_SHIFT({a}, 1)", "SHIFTLEFT({a}, 1)", "{a} << 1",
+                 "JSON_EXTRACT({a}, '$.x')", "GET_PATH({a}, 'x')", "{a}[0]", "{a}.b", "STRUCT_EXTRACT({a}, 'b')", "IF({a}, 1, 2)", "IIF({a}, 1, 2)"]
+INNER = ["-a", "- a", "~a", "-1", "-1.5", "- -a", "~ ~a", "NOT a", "-(a)", "-f(a)"]
+
+
+def prefix_product(full: bool):
+    """quick tier: 3 prefixes x all operand forms x 4 signed first arguments; thorough: the whole product, two contexts"""
+    prefixes = PREFIXES if full else ["-", "~", "NOT "]
+    inner = INNER if full else ["-a", "~a", "-1", "NOT a"]
+    for p in prefixes:
+        for f in OPERAND_FORMS:
+            for a in inner:
+                yield "SELECT " + p + f.format(a=a)
+                if full:
+                    yield "SELECT 1 FROM t WHERE b = " + p + f.format(a=a)
+
+
 # ------------------------------------------------------------------------------------------ search (property oracle)
 TYPES = ["INT", "TEXT", "DECIMAL(10, 2)", "DATE", "BIGINT", "VARCHAR(10)", "TIMESTAMP"]
 KNOWN_FUNCS = ["COALESCE({0}, {1})", "ABS({0})", "LOWER({0})", "UPPER({0})", "LENGTH({0})", "ROUND({0}, 2)", "NULLIF({0}, {1})",
@@ -698,13 +865,17 @@ def verdict(s: str, d: str):
 
 
 def skeleton(s: str, d: str) -> str:
+    """identifiers -> id, numbers -> n, strings -> lit; keywords, operators and the names of called functions are kept"""
     try:
         toks = real_tokens(d, s)
     except Exception:  # noqa
         return "untokenizable"
     out = []
-    for ty, text in toks:
-        if ty in ("VAR", "IDENTIFIER"):
+    for i, (ty, text) in enumerate(toks):
+        nxt = toks[i + 1][0] if i + 1 < len(toks) else None
+        if ty == "VAR" and nxt == "L_PAREN":
+            out.append(text.upper())
+        elif ty in ("VAR", "IDENTIFIER"):
             out.append("id")
         elif ty == "NUMBER":
             out.append("n")
@@ -794,11 +965,34 @@ def search(chk: Check, hints: list, tabs: dict, budget_s: float) -> None:
         seen_keys.setdefault(key, set()).add(d)
         chk.report_violation(key, f"[{d or 'base'}] {v2[1]}", {"dialect": d, "sql": small, "original": s}, {"dialect": d})
 
+    def consider_fixed(s, d, label=None):
+        """deterministic sweep inputs: no shrinking (they are minimal); `label` replaces the skeleton in the key"""
+        nonlocal tried, found
+        tried += 1
+        v = verdict(s, d)
+        chk.count("sweep:" + ("holds" if v is None else v[0]))
+        if v is None:
+            return
+        found += 1
+        key = v[0] + ":" + (label if label else skeleton(s, d))
+        seen_keys.setdefault(key, set()).add(d)
+        chk.report_violation(key, f"[{d or 'base'}] {v[1]}", {"dialect": d, "sql": s}, {"dialect": d})
+
     for d, s in hints:
         consider(s if s.upper().startswith(("SELECT", "WITH")) else "SELECT " + s, d)
     for s in SEARCH_TEMPLATES:
         for d in dialects:
             consider(s, d)
+    t1 = time.time()
+    prod = list(prefix_product(not chk.quick))
+    for d in dialects:
+        for s in prod:
+            consider_fixed(s, d)
+    chk.cov["prefix_operator_product"] = {"sources": len(prod), "dialects": len(dialects), "wall_s": round(time.time() - t1, 1)}
+    t1 = time.time()
+    time_sweep(chk, dialects, consider_fixed, time.time() + chk.pick(40, 600))
+    chk.cov["time_format_sweep"]["wall_s"] = round(time.time() - t1, 1)
+    t0 = time.time()  # the random search gets its own budget
     while time.time() - t0 < budget_s and len(chk.violations) < 5:
         depth = rng.choice([0, 1, 1, 2])
         s = qg.query(depth) if rng.random() < 0.7 else "SELECT " + qg.g.level(0, depth)
@@ -827,6 +1021,7 @@ def run(chk: Check) -> None:
 
     logging.getLogger("sqlglot").setLevel(logging.ERROR)
     tabs = dialect_tables(chk)
+    format_time_call_smells(chk)
     chk.write_generated(translate(chk, tabs))
     proved = chk.prove(MODULES, "Properties.C01", THEOREMS)
     hints = []
